@@ -52,6 +52,17 @@ def _mk_dy():
 STUBS.append(_mk_dy())
 
 
+def _mk_bs():
+    # kind 4: bounded support {v >= p}; sampler max(tape, p); density -(v-p) inside, -inf outside
+    return distribution(lambda t, p: jnp.maximum(t, p),
+                        lambda v, t, p: jnp.where(v >= p, -(v - p), -jnp.inf), name="bs")
+
+
+STUBS.append(_mk_bs())
+INF_SENTINEL = 10 ** 9
+NAN_MARKER = 777777777777
+
+
 def name(a):
     return f"a{a}"
 
@@ -136,6 +147,10 @@ def canon_val(x):
         return a.tolist() if a.ndim else bool(a)
     if a.ndim == 0:
         f = float(a)
+        if f != f:
+            return NAN_MARKER
+        if f in (float("inf"), float("-inf")):
+            return INF_SENTINEL if f > 0 else -INF_SENTINEL
         if f != int(f):
             raise NotIntegral(f)
         return int(f)
@@ -268,7 +283,8 @@ def gen_sel(rng, depth, alphabet):
 
 class ProgGen:
     def __init__(self, rng, max_depth=3, allow=("dist", "fn", "cond", "vmap", "scan"),
-                 collide=0.0, naddr=4):
+                 collide=0.0, naddr=4, dkinds=(0, 1, 2)):
+        self.dkinds = list(dkinds)
         self.rng = rng
         self.max_depth = max_depth
         self.allow = allow
@@ -318,7 +334,7 @@ class ProgGen:
         used = []
         calls = []
         for _ in range(nsites):
-            if used and depth == self.max_depth and rng.random() < self.collide:
+            if used and getattr(self, 'collide_now', False) and depth == self.max_depth and rng.random() < self.collide:
                 a = rng.choice(used)
             else:
                 free = [x for x in range(self.naddr) if x not in used]
@@ -348,7 +364,7 @@ class ProgGen:
                     kinds += [k] * 2
         k = rng.choice(kinds)
         if k == "dist":
-            return ["dist", rng.randrange(3)], [self.sexpr(env, 1), self.sexpr(env, 2)], "S"
+            return ["dist", rng.choice(self.dkinds)], [self.sexpr(env, 1), self.sexpr(env, 2)], "S"
         if k == "fn":
             m = rng.choice([1, 2, 3])
             return self.fn(["S"] * m, depth), [self.sexpr(env, 2) for _ in range(m)], "S"
@@ -370,7 +386,7 @@ class ProgGen:
         m = rng.choice([1, 2])
         if rng.random() < 0.15:
             # two distributions directly (args: tape, param)
-            return ["cond", ["dist", rng.randrange(3)], ["dist", rng.randrange(3)]], 2
+            return ["cond", ["dist", rng.choice(self.dkinds)], ["dist", rng.choice(self.dkinds)]], 2
         if rng.random() < 0.35 and depth > 0:
             # both branches from one skeleton: shared addresses may be sub-calls
             # (hierarchical addresses) with the same inner address structure
@@ -406,7 +422,7 @@ class ProgGen:
         calls = []
         for a, inner, m_in in skel:
             if inner is None:
-                sub = ["dist", self.rng.randrange(3)]
+                sub = ["dist", self.rng.choice(self.dkinds)]
                 args = [self.sexpr(env, 1), self.sexpr(env, 2)]
             else:
                 sub = self.fn_with_addrs(["S"] * m_in, 0, inner)
@@ -422,7 +438,7 @@ class ProgGen:
         env = list(argtypes)
         calls = []
         for a in addrs:
-            sub = ["dist", self.rng.randrange(3)]
+            sub = ["dist", self.rng.choice(self.dkinds)]
             args = [self.sexpr(env, 1), self.sexpr(env, 2)]
             calls.append((a, sub, args))
             env.append("S")
@@ -438,7 +454,7 @@ class ProgGen:
         axes = [rng.random() < 0.6 for _ in range(m)]
         given = rng.random() < 0.5 or not any(axes)
         if rng.random() < 0.25 and m == 2:
-            callee = ["dist", rng.randrange(3)]
+            callee = ["dist", rng.choice(self.dkinds)]
         else:
             callee = self.fn(["S"] * m, depth)
         return ["vmap", n, axes, callee, given], n, axes
@@ -455,6 +471,7 @@ class ProgGen:
         kinds = [k for k in ("fn", "fn", "cond", "vmap", "scan") if k in self.allow]
         k = rng.choice(kinds)
         d = self.max_depth
+        self.collide_now = (k == "fn")
         if k == "fn":
             m = rng.choice([2, 3])
             tys = ["S"] * m
